@@ -12,7 +12,7 @@ use libtw2_net::Timestamp;
 use serde::{Deserialize, Serialize};
 use std::collections::BTreeMap;
 
-pub const NADDR: usize = 4;
+pub const NADDR: usize = 12;
 
 #[derive(Clone, Debug, Serialize, Deserialize)]
 pub struct MultiCfg {
@@ -180,6 +180,9 @@ struct W<'c> {
     cb: NetCb,
     shadows: BTreeMap<u8, Shadow>,
     remotes: Vec<Remote>,
+    /// genuine close datagrams sent by the remote side of each address (RDisconnect)
+    remote_closes: Vec<Vec<Vec<u8>>>,
+    last_remote_out: Vec<Vec<u8>>,
     /// links[a][dir]
     links: Vec<[Vec<Vec<u8>>; 2]>,
 }
@@ -312,7 +315,8 @@ impl Engine for MultiEngine {
         let loss = if !fault_free && c.chance(1, 2) { c.range(10, 150) } else { 0 };
         let dup = if !fault_free && c.chance(1, 2) { c.range(10, 150) } else { 0 };
         let reorder = if !fault_free && c.chance(1, 2) { c.range(50, 400) } else { 0 };
-        let naddr = c.range(1, NADDR as u64) as u8;
+        // mostly a handful of peers; sometimes many (collections behave differently beyond small sizes)
+        let naddr = match c.below(8) { 0 => c.range(9, NADDR as u64), 1 => c.range(5, 8), _ => c.range(1, 4) } as u8;
         let n_target = match c.below(10) {
             0..=4 => c.range(30, 120),
             5..=8 => c.range(120, 400),
@@ -391,6 +395,8 @@ impl Engine for MultiEngine {
             cb: NetCb { now: 1_000_000, out: Vec::new(), cur_addr: 0, draws: [0; NADDR], sends: [0; NADDR], fail_left: [0; NADDR], seed: cfg.seed, calls: 0 },
             shadows: BTreeMap::new(),
             remotes: (0..NADDR).map(|i| Remote { conn: None, cb: SimCb::new(Prng::stream(cfg.seed, 100 + i as u64), 0, 0), may_send: false, closed: false }).collect(),
+            remote_closes: (0..NADDR).map(|_| Vec::new()).collect(),
+            last_remote_out: Vec::new(),
             links: (0..NADDR).map(|_| [Vec::new(), Vec::new()]).collect(),
         };
         for op in &case.ops {
@@ -453,7 +459,7 @@ impl Engine for MultiEngine {
             ],
             real: vec!["net::Net", "net::collections::PeerMap", "the Connections inside Net", "remote peers (net::connection::Connection)", "packet codec, Huffman"],
             stub: vec!["UDP socket (per-address simulated links)", "clock", "RNG"],
-            required_probes: vec!["probe_peer_accepted", "probe_event_ready", "probe_event_chunk", "probe_event_disconnect", "probe_two_live_peers", "probe_unknown_addr_ignored", "probe_tick_sent"],
+            required_probes: vec!["probe_peer_accepted", "probe_event_ready", "probe_event_chunk", "probe_event_disconnect", "probe_two_live_peers", "probe_unknown_addr_ignored", "probe_tick_sent", "probe_remote_close_delivered", "probe_nine_live_peers"],
             fault_kinds: vec!["fault_loss", "fault_duplication", "fault_reorder", "fault_send_failure", "fault_garbage"],
         }
     }
@@ -786,6 +792,8 @@ impl MultiEngine {
                 }) {
                     stop!(x);
                 }
+                let outs = w.last_remote_out.clone();
+                w.remote_closes[a].extend(outs);
                 w.remotes[a].closed = true;
             }
             MultiOp::Garbage { a, kind, salt } => {
@@ -936,11 +944,16 @@ impl MultiEngine {
                         if w.shadows.len() >= 2 {
                             ctx.count("probe_two_live_peers");
                         }
+                        if w.shadows.len() >= 9 {
+                            ctx.count("probe_nine_live_peers");
+                        }
                     } else {
                         ctx.count("probe_unknown_addr_ignored");
                     }
                 } else {
                     let pid = w.shadows[&a8].pid;
+                    let shadow_unconnected_before = w.shadows[&a8].conn.is_unconnected();
+                    let shadow_token_before = w.shadows[&a8].conn.verif_expected_token();
                     let sr = w.shadow_call(a8, |c, cb| {
                         let mut buf: ArrayVec<[u8; 2048]> = ArrayVec::new();
                         let mut warn: Vec<libtw2_net::connection::Warning> = Vec::new();
@@ -973,6 +986,20 @@ impl MultiEngine {
                         });
                     }
                     let gone = sevs.iter().any(|e| matches!(e, MEv::Disconnect(_)));
+                    // independent of the shadow: "a peer is gone after it was disconnected by either side".
+                    // A genuine close from the remote side must be honoured whenever it can be authenticated:
+                    // the pending (unaccepted) peer expects no token; otherwise the close must carry the agreed token.
+                    if w.remote_closes[a].iter().any(|c| *c == d) {
+                        let authentic = shadow_unconnected_before || match shadow_token_before {
+                            Some(Some(t)) => d.len() >= 8 && d[d.len() - 4..] == t,
+                            Some(None) => true,
+                            None => true,
+                        };
+                        if authentic && !nplain.iter().any(|e| matches!(e, MEv::Disconnect(_))) {
+                            stop!(Some(v("remote-close-not-honoured", &[("state", if shadow_unconnected_before { "pending-accept" } else { "connected" })], format!("the remote side of address {} closed the connection (datagram {}) but the endpoint reported no Disconnect and keeps the peer", a, hexs(&d)))));
+                        }
+                        ctx.count("probe_remote_close_delivered");
+                    }
                     if let Some(x) = w.compare_out(ctx, "feed", Some(a8), nout, sout) {
                         stop!(Some(x));
                     }
@@ -1014,8 +1041,10 @@ impl MultiEngine {
                 return Err(None);
             }
         };
+        w.last_remote_out.clear();
         for (d, ok) in std::mem::take(&mut w.remotes[a].cb.out) {
             if ok {
+                w.last_remote_out.push(d.clone());
                 w.links[a][0].push(d);
             }
         }
